@@ -18,7 +18,7 @@ import (
 
 // plans the child serves; the parent's model context uses the same numbers
 var userPlans = map[string]models.UserPlan{
-	"BASIC": {Name: "BASIC", MaxCollections: 6, MaxCollectionPointCount: 60, MaxPointSize: 1024, ShardBackupFrequency: 3600, ShardBackupCount: 2},
+	"BASIC": {Name: "BASIC", MaxCollections: 7, MaxCollectionPointCount: 60, MaxPointSize: 1024, ShardBackupFrequency: 3600, ShardBackupCount: 2},
 	"TINY":  {Name: "TINY", MaxCollections: 1, MaxCollectionPointCount: 3, MaxPointSize: 96, ShardBackupFrequency: 3600, ShardBackupCount: 2},
 	"BIG":   {Name: "BIG", MaxCollections: 2, MaxCollectionPointCount: 12, MaxPointSize: 42000, ShardBackupFrequency: 3600, ShardBackupCount: 2},
 }
